@@ -38,7 +38,8 @@ RULE = ("per family and formula class (CNF, OPB): all parameter tuples in a smal
         "bipartite and simple graphs from shape generators (empty graph, empty sides, isolated vertices, complete, "
         "matchings, stars, paths, cycles, sparse/dense random, 10-16 vertices) with shuffled edge insertion order; "
         "distinct = distinct request line; non-trivial = at least one variable")
-ASSUMPTIONS = ["graph arguments are cnfgen BipartiteGraph / Graph objects (the networkx conversion of normalize() is C14/C15)",
+ASSUMPTIONS = ["graph arguments are cnfgen BipartiteGraph / Graph objects in the theorems (the networkx conversion of normalize() is "
+               "C14/C16); about a third of the gphp / subsetcard cases hand the same graph over as a networkx object",
                "parameters are Python ints (TypeError for non-integers is not modelled)"]
 NOTES = ["BinaryMappingVariables computes the bit length with float log; it differs from the exact value first at "
          "2**29 holes (unreachable: the formula would have > 2**29 clauses); the model uses the exact value"]
@@ -302,13 +303,34 @@ def sample_rows(rng, n, V, witnesses):
 
 
 # ------------------------------------------------------------------ cases
+def bip_argument(info):
+    """the bipartite graph argument: a cnfgen BipartiteGraph, or (info["nx"] = seed) a networkx graph with the same
+    sides and edges — nodes of the two sides interleaved in a random insertion order (so that networkx reports some
+    edges as (right, left)), arbitrary labels, side given as int / bool / str"""
+    if info.get("nx") is None:
+        return mk_bip(info["l"], info["r"], info["edges"])
+    import networkx
+    import random as _random
+    r = _random.Random(info["nx"])
+    zero, one = r.choice([(0, 1), (False, True), ("0", "1")])
+    todo = [[("a", i) for i in range(info["l"], 0, -1)], [("b", j) for j in range(info["r"], 0, -1)]]
+    h = networkx.Graph(name="nx")
+    while todo[0] or todo[1]:
+        side = r.choice([k for k in (0, 1) if todo[k]])
+        h.add_node(todo[side].pop(), bipartite=(zero, one)[side])
+    for u, v in info["edges"]:
+        e = (("a", u), ("b", v))
+        h.add_edge(*(e if r.random() < .5 else e[::-1]))
+    return h
+
+
 def real_formula(suite, info):
     opb = info.get("opb", False)
     fc = fclass(opb)
     if suite == "php":
         return PigeonholePrinciple(info["m"], info["n"], bool(info["f"]), bool(info["o"]), formula_class=fc)
     if suite == "gphp":
-        return GraphPigeonholePrinciple(mk_bip(info["l"], info["r"], info["edges"]), bool(info["f"]), bool(info["o"]),
+        return GraphPigeonholePrinciple(bip_argument(info), bool(info["f"]), bool(info["o"]),
                                         formula_class=fc)
     if suite == "bphp":
         return BinaryPigeonholePrinciple(info["m"], info["n"], formula_class=fc)
@@ -319,7 +341,7 @@ def real_formula(suite, info):
     if suite == "pmatch":
         return PerfectMatchingPrinciple(mk_graph(info["n"], info["edges"]), formula_class=fc)
     if suite == "subsetcard":
-        return SubsetCardinalityFormula(mk_bip(info["l"], info["r"], info["edges"]), bool(info["eq"]), formula_class=fc)
+        return SubsetCardinalityFormula(bip_argument(info), bool(info["eq"]), formula_class=fc)
     if suite == "cliquecol":
         return CliqueColoring(info["n"], info["k"], info["c"], formula_class=fc)
     raise ValueError("unknown suite " + suite)
@@ -586,10 +608,12 @@ def small_infos(suite, rng, tier):
                         if suite == "gphp":
                             for f in (0, 1):
                                 for o in (0, 1):
-                                    out.append(dict(l=l, r=r, edges=es, f=f, o=o, opb=opb, shape=name))
+                                    out.append(dict(l=l, r=r, edges=es, f=f, o=o, opb=opb, shape=name,
+                                                    nx=rng.randint(1, 10 ** 6) if rng.random() < .35 else None))
                         else:
                             for eq in (0, 1):
-                                out.append(dict(l=l, r=r, edges=es, eq=eq, opb=opb, shape=name))
+                                out.append(dict(l=l, r=r, edges=es, eq=eq, opb=opb, shape=name,
+                                                nx=rng.randint(1, 10 ** 6) if rng.random() < .35 else None))
         elif suite == "pmatch":
             for n in range(0, 10 if big else 7):
                 for name, es in graph_shapes(rng, n):
@@ -632,11 +656,13 @@ def random_infos(rng, tier):
         if not opb3:
             # the clause encodings of at-most-one / majorities are exponential in the degree
             name, es = rng.choice([s for s in shapes if s[0] in ("sparse", "isolated", "diag", "leftregular", "empty")])
-        out.append(("gphp", dict(l=l, r=r, edges=es, f=rng.randint(0, 1), o=rng.randint(0, 1), opb=opb3, shape=name)))
+        out.append(("gphp", dict(l=l, r=r, edges=es, f=rng.randint(0, 1), o=rng.randint(0, 1), opb=opb3, shape=name,
+                                 nx=rng.randint(1, 10 ** 6) if rng.random() < .35 else None)))
         name, es = rng.choice(shapes)
         if not opb3:
             name, es = rng.choice([s for s in shapes if s[0] in ("sparse", "isolated", "diag", "leftregular", "empty", "half")])
-        out.append(("subsetcard", dict(l=l, r=r, edges=es, eq=rng.randint(0, 1), opb=opb3, shape=name)))
+        out.append(("subsetcard", dict(l=l, r=r, edges=es, eq=rng.randint(0, 1), opb=opb3, shape=name,
+                                      nx=rng.randint(1, 10 ** 6) if rng.random() < .35 else None)))
         n = rng.randint(10, 16)
         name, es = rng.choice(graph_shapes(rng, n))
         out.append(("pmatch", dict(n=n, edges=es, opb=rng.random() < 0.5, shape=name)))
